@@ -275,6 +275,9 @@ func (c *Canon) pureExpr(e ast.Expr) bool {
 		case *ast.FuncLit:
 			pure = false
 			return false
+		case *ast.CompositeLit:
+			pure = false // a fresh object each time: do not duplicate it by substitution
+			return false
 		case *ast.UnaryExpr:
 			if x.Op == token.ARROW {
 				pure = false
